@@ -324,3 +324,105 @@ pub fn replay(ctx: &Ctx, rep: &Report, ck: &str, case: &Value) -> CheckResult {
     let params = make_params(&keys, None);
     check_one(rep, ck, &c, &params)
 }
+
+// ---------------------------------------------------------------------------------------------
+// A prover that deviates from the honest algorithm (outside the quantifier of C16, which speaks of the
+// honest prover, transplants and field edits): used only by `zkverif range-forgery-probe`, see DESIGN §11.6.
+
+fn h_int(s: String) -> Integer {
+    use sha2::Digest;
+    Integer::from_digits(Sha256::digest(s).as_slice(), rug::integer::Order::MsfBe)
+}
+
+fn powm(b: &Integer, e: &Integer, n: &Integer) -> Integer {
+    Integer::from(b.pow_mod_ref(e, n).unwrap())
+}
+
+/// Build a range proof for an arbitrary committed x (opening known) choosing x_1 = 0 when x - bound is
+/// negative, i.e. letting the "small remainder" carry the whole (negative) distance to the bound.
+pub fn deviating_prover(p: &Params, x: &Integer, r: &Integer, a: &Integer, b: &Integer, st: &mut u64) -> Value {
+    let n = &p.n;
+    let (g, h) = (&p.g, &p.h);
+    let w = (b - a).complete();
+    let t_big = 2 * (T_SEC + L_SEC + 1) + w.significant_bits();
+    let two_t = Integer::from(2).pow(t_big);
+    let off = Integer::from(2).pow(L_SEC + T_SEC + t_big / 2 + 1) * w.clone().sqrt();
+    let aa = (&two_t * a).complete() - &off;
+    let bb = (&two_t * b).complete() + &off;
+    let e = powm(g, x, n) * powm(h, r, n) % n;
+    let e_prime = powm(&e, &two_t, n);
+    let xp = (&two_t * x).complete();
+    let rp = (&two_t * r).complete();
+    let side = |xs: Integer, rs: Integer, st: &mut u64| -> (Integer, Integer, Value, Value) {
+        // xs = x_1^2 + x_2 with x_1 = floor(sqrt(xs)) if xs >= 0, else x_1 = 0 and x_2 = xs < 0
+        let x1 = if xs >= 0 { xs.clone().sqrt() } else { Integer::new() };
+        let x2: Integer = &xs - x1.clone().square();
+        let r1 = clmath::int_from_seed(st, 1500);
+        let r2 = (&rs - &r1).complete();
+        let e1 = powm(g, &x1.clone().square(), n) * powm(h, &r1, n) % n;
+        let e2 = powm(g, &x2, n) * powm(h, &r2, n) % n;
+        // proof of square
+        let q2 = clmath::int_from_seed(st, 1060);
+        let f = powm(g, &x1, n) * powm(h, &q2, n) % n;
+        let q3 = (&r1 - (&q2 * &x1).complete());
+        let (om, mu1, mu2) = (clmath::int_from_seed(st, 1000), clmath::int_from_seed(st, 1400), clmath::int_from_seed(st, 2400));
+        let w1 = powm(g, &om, n) * powm(h, &mu1, n) % n;
+        let w2 = powm(&f, &om, n) * powm(h, &mu2, n) % n;
+        let c = h_int(w1.to_string() + &w2.to_string());
+        let sq = json!({"E": int_val(&e1), "F": int_val(&f), "proof_ss": {"challenge": int_val(&c), "d": int_val(&(&om + (&c * &x1).complete())), "d_1": int_val(&(&mu1 + (&c * &q2).complete())), "d_2": int_val(&(&mu2 + (&c * &q3).complete()))}});
+        // large-interval proof with w chosen by the prover in the upper half of its range
+        let top = (Integer::from(2).pow(t_big) * Integer::from(2).pow(T_SEC + L_SEC)) * b;
+        let mut tries = 0;
+        let li = loop {
+            tries += 1;
+            if tries > 300 {
+                break json!({"C": int_val(&Integer::from(1)), "D_1": int_val(&Integer::from(1)), "D_2": int_val(&Integer::from(1))});
+            }
+            let wv = (&top >> 1u32).complete() + clmath::int_from_seed(st, top.significant_bits() - 3);
+            let nu = clmath::int_from_seed(st, 2600);
+            let omega = powm(g, &wv, n) * powm(h, &nu, n) % n;
+            let cc = h_int(omega.to_string());
+            let c = cc.clone().keep_bits(T_SEC);
+            let d1 = (&wv + (&x2 * &c).complete());
+            let d2 = (&nu + (&r2 * &c).complete());
+            if (&c * b).complete() <= d1 && d1 <= (Integer::from(2).pow(t_big) * (Integer::from(2).pow(T_SEC + L_SEC) * b - 1u32)) {
+                break json!({"C": int_val(&cc), "D_1": int_val(&d1), "D_2": int_val(&d2)});
+            }
+        };
+        (e1, e2, sq, li)
+    };
+    let (ea1, ea2, sqa, lia) = side((&xp - &aa).complete(), rp.clone(), st);
+    let (eb1, eb2, sqb, lib) = side((&bb - &xp).complete(), (-&rp).complete(), st);
+    json!({
+        "proof_of_tolerance": {"E_a_1": int_val(&ea1), "E_a_2": int_val(&ea2), "E_b_1": int_val(&eb1), "E_b_2": int_val(&eb2),
+            "proof_of_square_a": sqa, "proof_of_square_b": sqb, "proof_large_i_a": lia, "proof_large_i_b": lib},
+        "E_prime": int_val(&e_prime),
+        "E": int_val(&e),
+    })
+}
+
+/// `zkverif range-forgery-probe`: does the verifier accept the deviating prover for out-of-range values?
+pub fn probe() {
+    let keys = key_pool(ClSuite::CL1024, 0, 1, 1);
+    let params = make_params(&keys, None);
+    let p = &params[0];
+    let mut st = 12345u64;
+    let a = Integer::from(0);
+    let b = (Integer::from(1) << 256) - 1u32;
+    for (what, x) in [
+        ("in range (control)", Integer::from(1) << 200u32),
+        ("b + 1", Integer::from(&b + 1u32)),
+        ("b + 2^100", Integer::from(&b + &(Integer::from(1) << 100u32))),
+        ("b + 2^290", Integer::from(&b + &(Integer::from(1) << 290u32))),
+        ("2^400", Integer::from(1) << 400u32),
+        ("-1", Integer::from(-1)),
+        ("-2^200", Integer::from(-1) << 200u32),
+    ] {
+        let r = clmath::int_from_seed(&mut st, 1024);
+        let j = deviating_prover(p, &x, &r, &a, &b, &mut st);
+        let ok = serde_json::from_value::<Boudot2000RangeProof>(j).map(|pr| catch(|| pr.verify::<Sha256>(&p.g, &p.h, &p.n, &a, &b)).unwrap_or(false));
+        println!("x = {:<20} verifier says {:?}", what, ok);
+        use std::io::Write;
+        let _ = std::io::stdout().flush();
+    }
+}
